@@ -48,6 +48,174 @@ pub struct Stream {
     pub tx_overlap: bool,
     /// sizes accepted by each successful partial write (for evidence)
     pub accepted: Vec<usize>,
+    /// fault injection: the send / receive side of this stream answers `StreamErrorIncoming::Unknown`
+    /// from now on (set when an injected `K` fault fired on it)
+    pub tx_broken: bool,
+    pub rx_broken: bool,
+}
+
+/// Fault injection (scenario op `!<site>[<target>][@<skip>]:<err>`): the next call (after `skip`
+/// further calls) of one transport entry point answers an error instead of doing its work.
+#[derive(Clone, Copy, PartialEq, Eq, Debug)]
+pub enum Site {
+    /// `poll_open_send`; target = ordinal of the unidirectional stream the call would open (0 = control)
+    OpenUni,
+    /// `poll_open_bidi`; target = ordinal of the bidirectional stream the call would open
+    OpenBidi,
+    /// `send_data` / `poll_ready` / `poll_finish` / `poll_send` on the send side of stream `target`
+    SendData,
+    PollReady,
+    PollFinish,
+    /// `poll_accept_recv` / `poll_accept_bidi` (no target)
+    AcceptUni,
+    AcceptBidi,
+    /// `poll_data` on the receive side of stream `target`
+    RecvData,
+}
+
+#[derive(Clone, Debug)]
+pub enum FaultErr {
+    /// a connection error; it is sticky: the whole simulated connection fails with it (`Net::fail`)
+    Conn(ConnectionErrorIncoming),
+    /// `StreamErrorIncoming::StreamTerminated` (send side: as if the peer had sent STOP_SENDING;
+    /// receive side: as if it had sent RESET_STREAM); at an open site: that one call fails
+    Term(u64),
+    /// `StreamErrorIncoming::Unknown`; sticky on that side of the stream; at an open site: that one call fails
+    Unknown,
+    /// not an error: `poll_finish` answers `Pending` once (`P`, site `pf` only; nobody wakes the task)
+    Pend,
+}
+
+#[derive(Clone, Debug)]
+pub struct Fault {
+    pub site: Site,
+    pub target: Option<u64>,
+    pub skip: u32,
+    pub err: FaultErr,
+    pub label: String,
+}
+
+/// `<site>[<target>][@<skip>]:<err>`; sites `ou ob sd pr pf au ab rd`; errors `C<code>` application
+/// close, `T` timeout, `I` InternalError, `U` Undefined (connection errors), `X<code>`
+/// StreamTerminated, `K` Unknown (stream errors; not at `au`/`ab`)
+pub fn parse_fault(s: &str) -> Option<Fault> {
+    let (head, err) = s.split_once(':')?;
+    let (head, skip) = match head.split_once('@') {
+        Some((h, k)) => (h, k.parse::<u32>().ok()?),
+        None => (head, 0),
+    };
+    if head.len() < 2 || !head.is_char_boundary(2) {
+        return None;
+    }
+    let site = match &head[..2] {
+        "ou" => Site::OpenUni,
+        "ob" => Site::OpenBidi,
+        "sd" => Site::SendData,
+        "pr" => Site::PollReady,
+        "pf" => Site::PollFinish,
+        "au" => Site::AcceptUni,
+        "ab" => Site::AcceptBidi,
+        "rd" => Site::RecvData,
+        _ => return None,
+    };
+    let target = if head.len() > 2 { Some(head[2..].parse::<u64>().ok()?) } else { None };
+    let on_stream = matches!(site, Site::SendData | Site::PollReady | Site::PollFinish | Site::RecvData);
+    let accept = matches!(site, Site::AcceptUni | Site::AcceptBidi);
+    if (on_stream && target.is_none()) || (accept && target.is_some()) {
+        return None;
+    }
+    let err = match err.as_bytes().first()? {
+        b'C' => FaultErr::Conn(ConnectionErrorIncoming::ApplicationClose { error_code: err[1..].parse().ok()? }),
+        b'T' if err == "T" => FaultErr::Conn(ConnectionErrorIncoming::Timeout),
+        b'I' if err == "I" => FaultErr::Conn(ConnectionErrorIncoming::InternalError("sim".into())),
+        b'U' if err == "U" => {
+            let e: Box<dyn std::error::Error + Send + Sync> = "sim".into();
+            FaultErr::Conn(ConnectionErrorIncoming::Undefined(std::sync::Arc::from(e)))
+        }
+        b'X' if !accept => FaultErr::Term(err[1..].parse().ok()?),
+        b'K' if err == "K" && !accept => FaultErr::Unknown,
+        b'P' if err == "P" && site == Site::PollFinish => FaultErr::Pend,
+        _ => return None,
+    };
+    Some(Fault { site, target, skip, err, label: s.to_string() })
+}
+
+fn unknown_err() -> StreamErrorIncoming {
+    StreamErrorIncoming::Unknown("sim".into())
+}
+
+/// is a fault due at this call?  A connection error makes the whole connection fail (sticky).
+fn fault(net: &NetRef, site: Site, target: u64) -> Option<FaultErr> {
+    let mut n = net.borrow_mut();
+    if n.faults.is_empty() {
+        return None;
+    }
+    let i = n
+        .faults
+        .iter()
+        .position(|f| f.site == site && f.target.map(|t| t == target).unwrap_or(true) && !matches!(f.err, FaultErr::Pend))?;
+    if n.faults[i].skip > 0 {
+        n.faults[i].skip -= 1;
+        return None;
+    }
+    let f = n.faults.remove(i);
+    n.fired.push(f.label.clone());
+    n.event(format!("!{}", f.label));
+    if let FaultErr::Conn(e) = &f.err {
+        n.fail(e.clone());
+    }
+    Some(f.err)
+}
+
+/// is a `P` fault due at this `poll_finish`?
+fn pend_fault(net: &NetRef, id: u64) -> bool {
+    let mut n = net.borrow_mut();
+    let Some(i) = n
+        .faults
+        .iter()
+        .position(|f| f.site == Site::PollFinish && f.target == Some(id) && matches!(f.err, FaultErr::Pend))
+    else {
+        return false;
+    };
+    if n.faults[i].skip > 0 {
+        n.faults[i].skip -= 1;
+        return false;
+    }
+    let f = n.faults.remove(i);
+    n.fired.push(f.label.clone());
+    n.event(format!("!{}", f.label));
+    true
+}
+
+fn stream_err(e: FaultErr) -> StreamErrorIncoming {
+    match e {
+        FaultErr::Conn(c) => StreamErrorIncoming::ConnectionErrorIncoming { connection_error: c },
+        FaultErr::Term(c) => StreamErrorIncoming::StreamTerminated { error_code: c },
+        FaultErr::Unknown | FaultErr::Pend => unknown_err(),
+    }
+}
+
+/// a fault due at a send-side call of stream `id` (and the sticky `Unknown` state)
+fn send_fault(net: &NetRef, site: Site, id: u64) -> Option<StreamErrorIncoming> {
+    if net.borrow().streams.get(&id).map(|s| s.tx_broken).unwrap_or(false) {
+        return Some(unknown_err());
+    }
+    let e = fault(net, site, id)?;
+    let mut n = net.borrow_mut();
+    if let Some(s) = n.streams.get_mut(&id) {
+        match &e {
+            FaultErr::Term(c) => {
+                s.peer_stopped.get_or_insert(*c);
+                s.writing = None;
+            }
+            FaultErr::Unknown => {
+                s.tx_broken = true;
+                s.writing = None;
+            }
+            FaultErr::Conn(_) | FaultErr::Pend => {}
+        }
+    }
+    Some(stream_err(e))
 }
 
 #[derive(Default)]
@@ -79,6 +247,14 @@ pub struct Net {
     /// cfg `ev=1`: what h3 does on the transport is also logged, in order, into the scenario trace
     /// (`w<sid>:<hex>` bytes accepted, `fin<sid>`, `rst<sid>:<code>`, `stop<sid>:<code>`, `close:<code>`)
     pub events: Option<Rc<RefCell<Vec<String>>>>,
+    /// fault injection: armed faults, labels of the faults that fired (in order), was any fault armed
+    pub faults: Vec<Fault>,
+    pub fired: Vec<String>,
+    pub fault_seen: bool,
+    /// cfg `hold=1`: the connection task calls `builder.build(conn)` only when told to (`<task>.B`)
+    pub hold: bool,
+    /// cfg `ops=1`: the interpreter logs every op into the trace (`@<op>`)
+    pub log_ops: bool,
 }
 pub type NetRef = Rc<RefCell<Net>>;
 
@@ -208,6 +384,10 @@ fn open(net: &NetRef, bidi: bool, cx: &mut Context<'_>) -> Poll<Result<SimStream
     if let Some(e) = conn_err(net) {
         return Poll::Ready(Err(StreamErrorIncoming::ConnectionErrorIncoming { connection_error: e }));
     }
+    let ordinal = if bidi { net.borrow().next_local_bidi } else { net.borrow().next_local_uni };
+    if let Some(e) = fault(net, if bidi { Site::OpenBidi } else { Site::OpenUni }, ordinal) {
+        return Poll::Ready(Err(stream_err(e)));
+    }
     let mut n = net.borrow_mut();
     let credit = if bidi { n.bidi_credit } else { n.uni_credit };
     if credit == 0 {
@@ -276,6 +456,9 @@ impl quic::Connection<Bytes> for SimConn {
         if let Some(e) = conn_err(&self.net) {
             return Poll::Ready(Err(e));
         }
+        if let Some(FaultErr::Conn(e)) = fault(&self.net, Site::AcceptUni, 0) {
+            return Poll::Ready(Err(e));
+        }
         let mut n = self.net.borrow_mut();
         match n.incoming_uni.pop_front() {
             Some(id) => {
@@ -300,6 +483,9 @@ impl quic::Connection<Bytes> for SimConn {
         if let Some(e) = conn_err(&self.net) {
             return Poll::Ready(Err(e));
         }
+        if let Some(FaultErr::Conn(e)) = fault(&self.net, Site::AcceptBidi, 0) {
+            return Poll::Ready(Err(e));
+        }
         let mut n = self.net.borrow_mut();
         match n.incoming_bidi.pop_front() {
             Some(id) => {
@@ -321,6 +507,28 @@ impl quic::RecvStream for SimStream {
     fn poll_data(&mut self, cx: &mut Context<'_>) -> Poll<Result<Option<Bytes>, StreamErrorIncoming>> {
         if let Some(e) = conn_err(&self.net) {
             return Poll::Ready(Err(StreamErrorIncoming::ConnectionErrorIncoming { connection_error: e }));
+        }
+        if self.net.borrow().streams.get(&self.id).map(|s| s.rx_broken).unwrap_or(false) {
+            return Poll::Ready(Err(unknown_err()));
+        }
+        match fault(&self.net, Site::RecvData, self.id) {
+            Some(FaultErr::Conn(e)) => {
+                return Poll::Ready(Err(StreamErrorIncoming::ConnectionErrorIncoming { connection_error: e }))
+            }
+            Some(FaultErr::Unknown) => {
+                self.net.borrow_mut().streams.get_mut(&self.id).expect("stream").rx_broken = true;
+                return Poll::Ready(Err(unknown_err()));
+            }
+            // as if the peer had reset the stream now
+            Some(FaultErr::Term(c)) => {
+                let mut n = self.net.borrow_mut();
+                let s = n.streams.get_mut(&self.id).expect("stream");
+                if s.rx_done.is_none() {
+                    s.rx_done = Some(Rx::Reset(c));
+                    s.rx.clear();
+                }
+            }
+            Some(FaultErr::Pend) | None => {}
         }
         let mut n = self.net.borrow_mut();
         let s = n.streams.get_mut(&self.id).expect("stream");
@@ -364,6 +572,9 @@ impl quic::SendStream<Bytes> for SimStream {
         if let Some(e) = conn_err(&self.net) {
             return Poll::Ready(Err(StreamErrorIncoming::ConnectionErrorIncoming { connection_error: e }));
         }
+        if let Some(e) = send_fault(&self.net, Site::PollReady, self.id) {
+            return Poll::Ready(Err(e));
+        }
         let mut n = self.net.borrow_mut();
         let events = n.events.clone();
         let s = n.streams.get_mut(&self.id).expect("stream");
@@ -397,6 +608,9 @@ impl quic::SendStream<Bytes> for SimStream {
         Poll::Ready(Ok(()))
     }
     fn send_data<T: Into<WriteBuf<Bytes>>>(&mut self, data: T) -> Result<(), StreamErrorIncoming> {
+        if let Some(e) = send_fault(&self.net, Site::SendData, self.id) {
+            return Err(e);
+        }
         let mut n = self.net.borrow_mut();
         let s = n.streams.get_mut(&self.id).expect("stream");
         if s.writing.is_some() {
@@ -408,9 +622,18 @@ impl quic::SendStream<Bytes> for SimStream {
         s.writing = Some(data.into());
         Ok(())
     }
-    fn poll_finish(&mut self, _: &mut Context<'_>) -> Poll<Result<(), StreamErrorIncoming>> {
+    fn poll_finish(&mut self, cx: &mut Context<'_>) -> Poll<Result<(), StreamErrorIncoming>> {
         if let Some(e) = conn_err(&self.net) {
             return Poll::Ready(Err(StreamErrorIncoming::ConnectionErrorIncoming { connection_error: e }));
+        }
+        if pend_fault(&self.net, self.id) {
+            if let Some(s) = self.net.borrow_mut().streams.get_mut(&self.id) {
+                s.tx_waker = Some(cx.waker().clone());
+            }
+            return Poll::Pending;
+        }
+        if let Some(e) = send_fault(&self.net, Site::PollFinish, self.id) {
+            return Poll::Ready(Err(e));
         }
         let mut n = self.net.borrow_mut();
         n.event(format!("fin{}", self.id));
@@ -440,6 +663,9 @@ impl quic::SendStreamUnframed<Bytes> for SimStream {
     fn poll_send<D: Buf>(&mut self, cx: &mut Context<'_>, buf: &mut D) -> Poll<Result<usize, StreamErrorIncoming>> {
         if let Some(e) = conn_err(&self.net) {
             return Poll::Ready(Err(StreamErrorIncoming::ConnectionErrorIncoming { connection_error: e }));
+        }
+        if let Some(e) = send_fault(&self.net, Site::SendData, self.id) {
+            return Poll::Ready(Err(e));
         }
         let mut n = self.net.borrow_mut();
         let s = n.streams.get_mut(&self.id).expect("stream");
